@@ -561,6 +561,80 @@ PRELUDE = ("From NutsV Require Import model.Tree.\nFrom Coq Require Import ZArit
            "Import ListNotations.\nOpen Scope Z_scope.\n")
 
 
+def chain_audit(ctx, stats):
+    """Chain-level clause of C03 through the public API (Chain::expanded_draw of the real presets,
+    harness bin `schema`): the statistics reported with a draw describe the RETURNED position, and the
+    next trajectory starts from it - also when the trajectory ended with a divergence of either kind
+    (recoverable density error / energy error) or a NaN log-density, after the tree had moved."""
+    r = ctx.rnd()
+    quick = ctx.tier == "quick"
+    ok, out = build_harness(["schema"])
+    ctx.oblig("harness-build-chain", ok, out[-2000:])
+    if not ok:
+        return
+    cases = []
+    for cid in range(72 if quick else 600):
+        preset = r.choice(["diag_nuts", "diag_nuts", "lowrank_nuts", "diag_mclmc", "lowrank_mclmc"])
+        dim = r.choice([1, 2, 2, 5])
+        c = {"id": cid, "preset": preset, "dim": dim, "seed": r.randint(0, 2 ** 32), "chain": r.choice([0, 1, 5]),
+             "num_tune": r.choice([10, 20, 40]), "num_draws": r.choice([10, 25]),
+             "store_gradient": True, "store_unconstrained": True, "store_divergences": True,
+             "store_transformed": r.random() < 0.3, "store_mass_matrix": r.random() < 0.3,
+             "maxdepth": r.choice([2, 3, 4, 6]), "prec": [r.choice([0.25, 1.0, 4.0]) for _ in range(dim)],
+             "early_switch_freq": r.choice([2, 3, 4]), "switch_freq": r.choice([3, 4, 6]), "update_freq": 1,
+             "use_grad_based_estimate": r.random() < 0.5}
+        kind = r.choice(["rec", "rec", "huge_energy", "nan_logp", "none"])
+        if kind != "none":
+            c["region_fault"] = [r.choice([1.0, 1.5, 2.0, 2.5]), kind]
+        if preset.endswith("mclmc"):
+            c["dynamic_step_size"] = r.random() < 0.5
+            c["fixed_step"] = r.choice([0.25, 0.5])
+        cases.append(c)
+    outs, errs = run_harness_parallel("schema", cases)
+    ctx.oblig("harness-run-chain", not errs and len(outs) == len(cases), "\n".join(errs)[:1500])
+    nb = 0
+    cs = {"chains": 0, "draws": 0, "divergent_after_moving": 0, "unmoved": 0, "index_checked": 0}
+    for c in cases:
+        o = outs.get(c["id"])
+        if not o or o.get("set_position") != "ok":
+            continue
+        cs["chains"] += 1
+        prev = None
+        bad = None
+        for d in o["draws"]:
+            if "row" not in d:
+                break
+            cs["draws"] += 1
+            ctx.evaluations += 1
+            ds = d.get("described", {})
+            pos = d["pos"]
+            if "unconstrained_draw" in ds and ds["unconstrained_draw"] != pos:
+                bad = "draw %d: statistic unconstrained_draw is not the returned position" % d["draw"]
+            elif "gradient" in ds and ds["gradient"] != d["ref_grad"]:
+                bad = "draw %d: statistic gradient is not the gradient of the density at the returned position" % d["draw"]
+            elif "logp" in ds and ds["logp"][0] != d["ref_logp"]:
+                bad = "draw %d: statistic logp is not the log-density of the returned position" % d["draw"]
+            elif "index_in_trajectory" in ds and prev is not None:
+                cs["index_checked"] += 1
+                moved = pos != prev
+                if (int(ds["index_in_trajectory"][0]) == 0) == moved:
+                    bad = "draw %d: index_in_trajectory %s although the chain %s" % (d["draw"], ds["index_in_trajectory"][0], "moved" if moved else "did not move")
+            if prev is not None and pos == prev:
+                cs["unmoved"] += 1
+            if d.get("diverging") and prev is not None and pos != prev:
+                cs["divergent_after_moving"] += 1
+            if bad:
+                break
+            prev = pos
+        if bad:
+            nb += 1
+            if nb <= 3:
+                violation(ctx, "implementation violates C03 (%s, %s): %s" % (c["preset"], c.get("region_fault", "no faults"), bad), {"case": c}, found_input=True)
+    ctx.oblig("impl-audit-chain-statistics", nb == 0, "%d chains" % nb)
+    ctx.oblig("coverage-chain-audit", cs["divergent_after_moving"] > 0 and cs["index_checked"] > 0, json.dumps(cs))
+    stats["chain_audit"] = cs
+
+
 def run(ctx):
     prop = ctx.prop
     n_cases = 160 if ctx.tier == "quick" else 1500
@@ -686,6 +760,7 @@ def run(ctx):
         ctx.oblig("impl-audit-C03", nb == 0, "%d cases" % nb)
     if prop == "C03":
         pool_check(ctx, stats)
+        chain_audit(ctx, stats)
     ctx.notes["input_distribution"] = stats
     ctx.notes["mirror_rebuilds"] = mstats
 
@@ -706,5 +781,5 @@ ASSUMPTIONS = {
 }
 RULE = {
     "C01": "seeded random orbits: dimension 1-6, Gaussian/quartic potentials, diagonal and low-rank transformations, Euclidean and ExactNormal, maxdepth 0-7, mindepth, extra doublings, scripted random words; non-trivial = a draw of depth >= 1; distinct by (case, draw); plus mirror rebuilds: 80% of the fault-free default-option cases and 120 (thorough 1200) dedicated cases of 10 trajectories each (generic numbers, depth limits 2-8) are rebuilt from every state of the accepted tree (a seeded sample of 10 states incl. both ends when the tree has more than 16) with mirrored directions; each rebuild must give the same interval, depth and stopping reason",
-    "C03": "same stream as C01 plus density faults of every kind at a random evaluation; additionally an implementation-side audit of every draw against the statement (depth/steps/index relations, draw equals a reached state bitwise, next trajectory starts from it)",
+    "C03": "same stream as C01 plus density faults of every kind at a random evaluation; additionally an implementation-side audit of every draw against the statement (depth/steps/index relations, draw equals a reached state bitwise, next trajectory starts from it); chain-level audit through the public API (5 presets, region faults of three kinds): unconstrained_draw / gradient / logp statistics are those of the returned position bit for bit, index_in_trajectory = 0 iff the position did not change",
 }
